@@ -2,10 +2,28 @@
 
 package gowarc
 
+import "github.com/nlnwa/gowarc/v2/internal/diskbuffer"
+
 // Exports for the /verif correspondence harness. This file is NOT part of /repo: it is compiled into the
 // package through `go build -overlay` only, together with -tags verif.
 
 func VerifNormalizeName(name string) string {
 	n, _ := normalizeName(name)
 	return n
+}
+
+// ---- diskbuffer (internal package) made reachable for the harness
+
+type VerifBuffer = diskbuffer.Buffer
+type VerifSlice = diskbuffer.Slice
+
+func VerifNewBuffer(maxMem, hint int64, tmpDir string) VerifBuffer {
+	opts := []diskbuffer.Option{diskbuffer.WithTmpDir(tmpDir)}
+	if maxMem > 0 {
+		opts = append(opts, diskbuffer.WithMaxMemBytes(maxMem))
+	}
+	if hint >= 0 {
+		opts = append(opts, diskbuffer.WithMemBufferSizeHint(hint))
+	}
+	return diskbuffer.New(opts...)
 }
